@@ -163,7 +163,27 @@ namespace c09
             R &r() { return rd; }
             size_t pos() { return (size_t)(rd.ptr - start); }
         };
-        template <class T> static void put(W &w, const T &v) { igris::serialize(w, v); }
+        template <class T> static void put(W &w, const T &v)
+        {
+            // writer lifecycle: the stream's long-lived writer alternates with a second, short-lived writer on the same string
+            // (a helper that appends with its own writer); both must append at the string's end
+            size_t before = w.sstr.size();
+            if (before & 1)
+            {
+                W helper(w.sstr);
+                igris::serialize(helper, v);
+            }
+            else
+                igris::serialize(w, v);
+            // and a long-lived writer whose frame string the owner clears between messages writes each message from offset 0
+            static std::string frame;
+            static W frame_writer(frame);
+            frame.clear();
+            igris::serialize(frame_writer, v);
+            if (w.sstr.size() < before || frame.size() != w.sstr.size() - before || memcmp(frame.data(), w.sstr.data() + before, frame.size()) != 0)
+                kit::violate("C09/writers-disagree@archive", "a writer whose string was cleared before the message wrote %zu bytes, a writer appending to a string of %zu bytes wrote %zu bytes for the same value",
+                             frame.size(), before, w.sstr.size() - before);
+        }
         template <class T> static void get(R &r, T &v) { igris::deserialize(r, v); }
     };
 
